@@ -68,6 +68,23 @@ def model_run(cfg, challenge, cluster_status, hosts, logs, window, now, gunzip_t
     outs = {} if r[1] == '-' else {int(x.split(':')[0]): unhx(x.split(':')[1]) for x in r[1].split(',')}
     return {'trace': trace, 'outs': outs, 'tmp_left': int(r[2]), 'status': int(r[3])}
 
+def model_job(cfg, challenge, cluster_status, hosts, logs, window, now, gunzip_table, out_name='out.log', pre=None):
+    """the Atlas branch of the WHOLE command (Model/Job.v) on the same world: trace, every file the run leaves under the output name
+    (the output file itself, created empty before the key step and the download, and <out>.<i>), temp files left, status"""
+    def item(x):
+        if x[0] == 'S': return 'S:%d:%s' % (x[1], hx(x[2]))
+        if x[0] == 'C': return 'C:%d:%s' % (x[1], hx(x[2]))
+        return 'R'
+    gz = ','.join('%s:%s' % (hx(k), '!' if v is None else hx(v)) for k, v in gunzip_table.items()) or '-'
+    s, e = window or (0, 0)
+    fsl = ','.join('%s:F:420:%s' % (hx(k), hx(v)) for k, v in (pre or {}).items()) or '-'
+    req = 'JOBA %s %s %s %s %d %d %d %s %s %s' % ('1' if challenge else '0', item(('S', cluster_status, b'x')), '!' if hosts is None else (','.join(hx(h) for h in hosts) or '-'),
+                                                ','.join(item(x) for x in logs) or '-', s, e, now, gz, hx(out_name), fsl)
+    r = run_driver([cfg.driver_line(), req])[1].split()
+    trace = [] if r[0] == '-' else r[0].split(',')
+    files = {} if r[1] == '-' else {unhx(x.split(':')[0]).decode(): unhx(x.split(':')[1]) for x in r[1].split(',')}
+    return {'trace': trace, 'files': files, 'tmp_left': int(r[2]), 'status': int(r[3])}
+
 def impl_trace(reqs):
     """projection of the proxy's request log to the model's trace alphabet"""
     out = []
